@@ -30,7 +30,8 @@ theorem indexOf_append (c : UInt8) (x y : Bytes) (h : ∀ d ∈ x, (d == c) = fa
 
 /-- **Closed form of the substitution** for a path `pre[inner]post` whose first `[` and first `]` are these. -/
 theorem replaceQB_form (vars : Vars) (pre inner post : Bytes)
-    (h1 : ∀ d ∈ pre, (d == 91) = false) (h2 : ∀ d ∈ pre, (d == 93) = false) (h3 : ∀ d ∈ inner, (d == 93) = false) :
+    (h1 : ∀ d ∈ pre, (d == 91) = false) (h2 : ∀ d ∈ pre, (d == 93) = false) (h3 : ∀ d ∈ inner, (d == 93) = false)
+    (hpost : indexOf 91 post = none) :
     replaceQB vars (pre ++ 91 :: (inner ++ 93 :: post)) =
       (match getChunks vars (splitDots inner) with
        | .nil => some (pre ++ [46] ++ post)
@@ -61,30 +62,89 @@ theorem replaceQB_form (vars : Vars) (pre inner post : Bytes)
     rw [show pre ++ 91 :: (inner ++ 93 :: post) = (pre ++ 91 :: inner ++ [93]) ++ post by simp]
     rw [show pre.length + 1 + inner.length + 1 = (pre ++ 91 :: inner ++ [93]).length by simp; omega, List.drop_left]
   unfold replaceQB
-  simp only [hl, hr, hlt, if_true, hinner, htake, hdrop]
+  have hlen : (pre ++ 91 :: (inner ++ 93 :: post)).length = (pre.length + inner.length + post.length + 1) + 1 := by
+    simp; omega
+  rw [hlen, replaceQBF]
+  simp only [hl, hr, hlt, if_true, hinner, htake, hdrop, replaceQBF_plain _ vars post hpost, Option.map_some]
+  cases getChunks vars (splitDots inner) <;> first | rfl | (simp only []; split <;> rfl)
+
+/-- **Every pair of brackets, from left to right** (repair: only the first pair used to be substituted, `m[i][j]`
+    reached the inspector as `m.0[j]`). The first pair is replaced by the text of its index; what follows it — the
+    ORIGINAL text, not what was put in — is substituted in the same way. -/
+theorem replaceQB_step (vars : Vars) (pre inner post : Bytes)
+    (h1 : ∀ d ∈ pre, (d == 91) = false) (h2 : ∀ d ∈ pre, (d == 93) = false) (h3 : ∀ d ∈ inner, (d == 93) = false) :
+    replaceQB vars (pre ++ 91 :: (inner ++ 93 :: post)) =
+      (match getChunks vars (splitDots inner) with
+       | .nil => (replaceQB vars post).map (fun tl => pre ++ [46] ++ tl)
+       | v => match v.text with
+         | some t => (replaceQB vars post).map (fun tl => pre ++ [46] ++ t ++ tl)
+         | none => none) := by
+  have hl : indexOf 91 (pre ++ 91 :: (inner ++ 93 :: post)) = some pre.length := indexOf_append 91 pre _ h1
+  have hr : indexOf 93 (pre ++ 91 :: (inner ++ 93 :: post)) = some (pre.length + 1 + inner.length) := by
+    have : pre ++ 91 :: (inner ++ 93 :: post) = (pre ++ 91 :: inner) ++ 93 :: post := by simp
+    rw [this, indexOf_append 93 (pre ++ 91 :: inner) post]
+    · simp; omega
+    · intro d hd
+      simp only [List.mem_append, List.mem_cons] at hd
+      rcases hd with hd | rfl | hd
+      · exact h2 d hd
+      · decide
+      · exact h3 d hd
+  have hlt : pre.length < pre.length + 1 + inner.length := by omega
+  have hinner : ((pre ++ 91 :: (inner ++ 93 :: post)).drop (pre.length + 1)).take (pre.length + 1 + inner.length - pre.length - 1) = inner := by
+    have : (pre ++ 91 :: (inner ++ 93 :: post)).drop (pre.length + 1) = inner ++ 93 :: post := by
+      rw [show pre ++ 91 :: (inner ++ 93 :: post) = (pre ++ [91]) ++ (inner ++ 93 :: post) by simp]
+      rw [show pre.length + 1 = (pre ++ [91]).length by simp, List.drop_left]
+    rw [this]
+    have hn : pre.length + 1 + inner.length - pre.length - 1 = inner.length := by omega
+    rw [hn, List.take_left]
+  have htake : (pre ++ 91 :: (inner ++ 93 :: post)).take pre.length = pre := List.take_left
+  have hdrop : (pre ++ 91 :: (inner ++ 93 :: post)).drop (pre.length + 1 + inner.length + 1) = post := by
+    rw [show pre ++ 91 :: (inner ++ 93 :: post) = (pre ++ 91 :: inner ++ [93]) ++ post by simp]
+    rw [show pre.length + 1 + inner.length + 1 = (pre ++ 91 :: inner ++ [93]).length by simp; omega, List.drop_left]
+  have hlen : (pre ++ 91 :: (inner ++ 93 :: post)).length = (pre.length + inner.length + post.length + 1) + 1 := by
+    simp; omega
+  have hfuel : replaceQBF (pre.length + inner.length + post.length + 1) vars post = replaceQB vars post :=
+    replaceQBF_fuel vars _ post (by omega)
+  unfold replaceQB at *
+  rw [hlen, replaceQBF]
+  simp only [hl, hr, hlt, if_true, hinner, htake, hdrop, hfuel]
   cases getChunks vars (splitDots inner) <;> rfl
+
+/-- **Two indexes.** Inside two nested counter loops whose counters `i`, `j` hold `n`, `m`: `pre[i]mid[j]post` becomes
+    `pre.<n>mid.<m>post`. -/
+theorem replaceQB_two_counters (vars : Vars) (pre mid post i j : Bytes) (n m : Int)
+    (h1 : ∀ d ∈ pre, (d == 91) = false) (h2 : ∀ d ∈ pre, (d == 93) = false) (h3 : ∀ d ∈ i, (d == 93) = false)
+    (g1 : ∀ d ∈ mid, (d == 91) = false) (g2 : ∀ d ∈ mid, (d == 93) = false) (g3 : ∀ d ∈ j, (d == 93) = false)
+    (hi : splitDots i = [i]) (hvi : getVar vars i = some (.ins (.int n) .static))
+    (hj : splitDots j = [j]) (hvj : getVar vars j = some (.ins (.int m) .static)) (hpost : indexOf 91 post = none) :
+    replaceQB vars (pre ++ 91 :: (i ++ 93 :: (mid ++ 91 :: (j ++ 93 :: post)))) =
+      some (pre ++ [46] ++ decInt n ++ (mid ++ [46] ++ decInt m ++ post)) := by
+  rw [replaceQB_step vars pre i _ h1 h2 h3, hi, replaceQB_form vars mid j post g1 g2 g3 hpost, hj]
+  simp [getChunks, hvi, hvj, insGet, Val.text]
 
 /-- Inside a counter loop whose counter `i` holds `n`: `pre[i]post` becomes `pre.<decimal n>post`. -/
 theorem replaceQB_counter (vars : Vars) (pre post i : Bytes) (n : Int)
     (h1 : ∀ d ∈ pre, (d == 91) = false) (h2 : ∀ d ∈ pre, (d == 93) = false) (h3 : ∀ d ∈ i, (d == 93) = false)
-    (hi : splitDots i = [i]) (hv : getVar vars i = some (.ins (.int n) .static)) :
+    (hi : splitDots i = [i]) (hv : getVar vars i = some (.ins (.int n) .static)) (hpost : indexOf 91 post = none) :
     replaceQB vars (pre ++ 91 :: (i ++ 93 :: post)) = some (pre ++ [46] ++ decInt n ++ post) := by
-  rw [replaceQB_form vars pre i post h1 h2 h3, hi]
+  rw [replaceQB_form vars pre i post h1 h2 h3 hpost, hi]
   simp [getChunks, hv, insGet, Val.text]
 
 /-- **C02, indexed left operand.** In the iteration in which the loop counter `i` holds `n`, the comparison
     `pre[i]post op right` is the comparison of the value at `pre.<n>post` with `right`. -/
 theorem cmp_indexed_by_counter (c : Ctx) (pre post i : Bytes) (n : Int) (o : Op) (right : Bytes) (hq : c.chQB = true)
     (h1 : ∀ d ∈ pre, (d == 91) = false) (h2 : ∀ d ∈ pre, (d == 93) = false) (h3 : ∀ d ∈ i, (d == 93) = false)
-    (hi : splitDots i = [i]) (hv : getVar c.vars i = some (.ins (.int n) .static)) :
+    (hi : splitDots i = [i]) (hv : getVar c.vars i = some (.ins (.int n) .static)) (hpost : indexOf 91 post = none) :
     (c.cmp (pre ++ 91 :: (i ++ 93 :: post)) o right).1 = cmpCore c.vars (pre ++ [46] ++ decInt n ++ post) o right :=
-  C15.cmp_indexed_left c _ _ o right hq (replaceQB_counter c.vars pre post i n h1 h2 h3 hi hv)
+  C15.cmp_indexed_left c _ _ o right hq (replaceQB_counter c.vars pre post i n h1 h2 h3 hi hv hpost)
 
 /-! Non-vacuity: `lst[i]` with `i = 1` over `["a", "b"]` compares `lst.1`, i.e. `"b"`. -/
 def cx : Ctx := { ((({} : Ctx).set (lit "lst") (.strs [lit "a", lit "b"]) .strings).setStatic (lit "i") (.int 1)) with chQB := true }
 example : (cx.cmp (lit "lst[i]") .eq (lit "b")).1 = true := by decide
 example : (cx.cmp (lit "lst[i]") .eq (lit "a")).1 = false := by decide
 example : replaceQB cx.vars (lit "lst[i]") = some (lit "lst.1") := by decide
+example : replaceQB cx.vars (lit "m[i][i].x") = some (lit "m.1.1.x") := by decide
 
 /-- **C03, indexed range-loop source.** Inside a counter loop whose counter `i` holds `n`, `for … in pre[i]post`
     ranges over the value at `pre.<n>post` (repair of `Ctx.rloop`, which looked the literal path `pre[i]post` up,
@@ -92,11 +152,11 @@ example : replaceQB cx.vars (lit "lst[i]") = some (lit "lst.1") := by decide
 theorem rloop_indexed_by_counter (run : St → Res) (re : Option (St → Res)) (ls : RLoopSpec) (s : St)
     (pre post i : Bytes) (n : Int) (hq : s.c.chQB = true) (hsrc : ls.src = pre ++ 91 :: (i ++ 93 :: post))
     (h1 : ∀ d ∈ pre, (d == 91) = false) (h2 : ∀ d ∈ pre, (d == 93) = false) (h3 : ∀ d ∈ i, (d == 93) = false)
-    (hi : splitDots i = [i]) (hv : getVar s.c.vars i = some (.ins (.int n) .static)) :
+    (hi : splitDots i = [i]) (hv : getVar s.c.vars i = some (.ins (.int n) .static)) (hpost : indexOf 91 post = none) :
     rloopQB run re ls s = rloopWith run re { ls with src := pre ++ [46] ++ decInt n ++ post }
       { s with c := { s.c with err := none } } := by
   unfold rloopQB cmpPath
-  simp only [hq, if_true, hsrc, replaceQB_counter s.c.vars pre post i n h1 h2 h3 hi hv]
+  simp only [hq, if_true, hsrc, replaceQB_counter s.c.vars pre post i n h1 h2 h3 hi hv hpost]
 
 /-- Outside counter loops (no substitution pending) the source is taken as written. -/
 theorem rloop_outside_counter_loops (run : St → Res) (re : Option (St → Res)) (ls : RLoopSpec) (s : St)
@@ -116,26 +176,26 @@ theorem rloop_index_unwritable (run : St → Res) (re : Option (St → Res)) (ls
     `pre.<n>post` as it reads outside counter loops — value and error alike. -/
 theorem get_indexed_by_counter (c : Ctx) (pre post i : Bytes) (n : Int) (hq : c.chQB = true)
     (h1 : ∀ d ∈ pre, (d == 91) = false) (h2 : ∀ d ∈ pre, (d == 93) = false) (h3 : ∀ d ∈ i, (d == 93) = false)
-    (hi : splitDots i = [i]) (hv : getVar c.vars i = some (.ins (.int n) .static)) :
+    (hi : splitDots i = [i]) (hv : getVar c.vars i = some (.ins (.int n) .static)) (hpost : indexOf 91 post = none) :
     getCore c.vars c.chQB (pre ++ 91 :: (i ++ 93 :: post)) = getCore c.vars false (pre ++ [46] ++ decInt n ++ post) := by
   unfold getCore
-  simp only [hq, if_true, replaceQB_counter c.vars pre post i n h1 h2 h3 hi hv]
+  simp only [hq, if_true, replaceQB_counter c.vars pre post i n h1 h2 h3 hi hv hpost]
   simp
 
 /-- **`len()` / `cap()` conditions.** The same for `Ctx.cmpLC`. -/
 theorem cmpLC_indexed_by_counter (c : Ctx) (pre post i : Bytes) (n : Int) (o : Op) (right : Bytes) (hq : c.chQB = true)
     (h1 : ∀ d ∈ pre, (d == 91) = false) (h2 : ∀ d ∈ pre, (d == 93) = false) (h3 : ∀ d ∈ i, (d == 93) = false)
-    (hi : splitDots i = [i]) (hv : getVar c.vars i = some (.ins (.int n) .static)) :
+    (hi : splitDots i = [i]) (hv : getVar c.vars i = some (.ins (.int n) .static)) (hpost : indexOf 91 post = none) :
     cmpLCCore c.vars c.chQB (pre ++ 91 :: (i ++ 93 :: post)) o right = cmpLCCore c.vars false (pre ++ [46] ++ decInt n ++ post) o right := by
   unfold cmpLCCore
-  simp only [hq, if_true, replaceQB_counter c.vars pre post i n h1 h2 h3 hi hv]
+  simp only [hq, if_true, replaceQB_counter c.vars pre post i n h1 h2 h3 hi hv hpost]
   simp
 
 /-- A path without a square bracket is read the same inside and outside counter loops, by all four readers. -/
 theorem readers_plain (vars : Vars) (qb : Bool) (k : Bytes) (o : Op) (right : Bytes) (hb : indexOf 91 k = none) :
     getCore vars qb k = getCore vars false k ∧ cmpPath vars qb k = some k ∧
     cmpLCCore vars qb k o right = cmpLCCore vars false k o right := by
-  have hr : replaceQB vars k = some k := by unfold replaceQB; simp [hb]
+  have hr : replaceQB vars k = some k := replaceQB_plain vars k hb
   refine ⟨?_, C15.cmpPath_plain vars qb k hb, ?_⟩
   · unfold getCore; cases qb <;> simp [hr]
   · unfold cmpLCCore; cases qb <;> simp [hr]
